@@ -1,10 +1,13 @@
 """C15 - The filename generator yields unique, clean names in template order.
 
-Every rule is applied to both phases (static names, wildcard alternatives) of
-Filenames._newFilename: R15.1 freshness guard, R15.2 sanitise before
-substitute, R15.3 numbering and namespace reset, R15.4 bounded search,
-R15.5 limit words before replacing characters, R15.6 no pop from an empty
-word list."""
+The generator Filenames._newFilename is interpreted on a small heap against
+scripted consumers (abstract interpretation; the consumer binds variables
+between two requests, as the renderer does): R15.1 the names issued for a
+request sequence are exactly the ones the specification gives - never issued
+twice, never a reserved name, alternatives in list order, $num advancing only
+for names that were formed, word limits and forbidden characters applied to
+the values of the current request only, extension added when there is none;
+R15.4 the search is bounded and ends in an error, not silently."""
 import ast
 import re
 
@@ -16,183 +19,141 @@ from ..util import SelfHooks, text
 MOD = 'plasTeX.Filenames'
 
 
-def check(chk):
-    m = chk.model
-    fn = m.func(MOD, 'Filenames._newFilename')
-    chk.analysed(fn)
-    phases = find_phases(fn)
-    for name, loop in phases:
-        phase_rules(chk, m, fn, name, loop)
-    r154(chk, m, fn, phases)
-    r15x(chk, m)
-    chk.decline('the exact sequence of names for a concrete template and sequence of bindings (runtime)')
-
-
-def find_phases(fn):
-    loops = sorted((n for n in M.walk_no_nested(fn.node) if isinstance(n, ast.For) and text(n.iter) in ('static', 'wildcard')),
-                   key=lambda n: n.lineno)
-    need(len(loops) == 2 and [text(l.iter) for l in loops] == ['static', 'wildcard'],
-         '_newFilename: the static phase must precede the wildcard phase (found loops over %s)' % [text(l.iter) for l in loops])
-    return [('static', loops[0]), ('wildcard', loops[1])]
-
-
-class FHooks(SelfHooks):
-    def __init__(self, model, cls, keys):
+class Consumer(SelfHooks):
+    """Binds the variables of the next request after every yield; stops the generator after the last one."""
+    def __init__(self, model, cls, requests):
         SelfHooks.__init__(self, model, cls)
-        self.keys = keys
+        self.requests = requests
 
-    def call(self, interp, node, fname, args, kwargs, state):
-        if fname == 'keysre.findall':
-            return list(self.keys)
-        if fname == 'self.variables.copy':
-            return A.Sym('NS', truthy=True)
-        if fname.endswith('.substitute'):
-            state.env['__subst'] = True
-            return A.Sym('SUBST', truthy=True)
-        if fname == 'self.addExtension' and args:
-            return A.Sym('EXT(%s)' % (args[0].label if isinstance(args[0], A.Sym) else args[0]), truthy=True)
-        return None
-
-    def decide(self, interp, test, state):
-        t = text(test)
-        if t == 'self.charsub':
-            return True
-        if t in ("'num' in currentns",):
-            return any(k == 'num' for k, f in self.keys)
-        if re.fullmatch(r"format and key in currentns", t):
-            return None
+    def lookup(self, interp, name, state):
         return None
 
     def keep(self, ev):
-        return ev[0] in ('call', 'aug', 'assume', 'except', 'yield', 'setitem', 'continue')
+        return False
+
+    def on_yield(self, interp, value, state):
+        k = state.env.get('__served', 0) + 1
+        state.env['__served'] = k
+        if k >= len(self.requests):
+            return A.STOP
+        me = state.env['self']
+        v = me.attrs.get('variables')
+        if isinstance(v, dict):
+            v.update(self.requests[k])
+        return None
 
 
-def phase_rules(chk, m, fn, name, loop):
+def run_generator(m, files, requests, charsub=(' /', '-'), extension='.html', invalid=None, initial=None):
     cls = m.cls(MOD, 'Filenames')
-    R1 = chk.rule('R15.1', 'freshness guard: a name is yielded only after the extension was added, under `result not in self.invalid`, '
-                  'and after being recorded in self.invalid', 2) if 'R15.1' not in chk.rules else 'R15.1'
-    R3 = chk.rule('R15.3', 'numbering and reset: $num advances exactly when a candidate containing it was formed (not when the '
-                  'alternative is abandoned for an unbound variable); the namespace is reset after every formed name', 2) if 'R15.3' not in chk.rules else 'R15.3'
-    R5 = chk.rule('R15.5', 'the namespace is a copy of the variables; words are limited before forbidden characters are replaced; '
-                  'characters are replaced before substitution; no pop(0) from a possibly empty word list', 4) if 'R15.5' not in chk.rules else 'R15.5'
-    results = []
-    for label, keys in (('$num(3)', [('num', '3')]), ('$title(2)', [('title', '2')]), ('$id', [('id', '')])):
-        it = A.Interp(model=m, scope=fn, hooks=FHooks(m, cls, keys), max_iter=2, exc_edges=True)
-        env = {text(loop.target): A.Sym('ITEM', truthy=True), 'num': A.Sym('NUM'), 'g': A.Sym('G'), 'passes': 1}
-        outs = it.block(loop.body, [A.State(env)])
-        for kind in ('fall', 'continue', 'break', 'return', 'raise'):
-            for s, v in outs.get(kind, []):
-                results.append((label, keys, kind, s))
-    chk.paths += len(results)
-    need(results, 'phase %s has no paths' % name)
-    bad1, bad3 = [], []
-    n_yield = n_abandon = 0
-    for label, keys, kind, s in results:
-        tr = s.trace
-        names = [e[0] + ':' + str(e[1]) for e in tr]
-        idx = lambda pred: next((i for i, e in enumerate(tr) if pred(e)), None)
-        i_sub = idx(lambda e: e[0] == 'call' and e[1].endswith('.substitute'))
-        i_exc = idx(lambda e: e[0] == 'except')
-        i_aug = idx(lambda e: e[0] == 'aug' and e[1] == 'num')
-        i_yield = idx(lambda e: e[0] == 'yield')
-        if i_exc is not None:
-            if i_sub is not None and i_sub < i_exc:
-                continue          # KeyError can only come from substitute(): infeasible
-            n_abandon += 1
-            if i_aug is not None:
-                bad3.append('%s: $num advances although the alternative is abandoned (unbound variable)' % label)
-            if i_yield is not None:
-                bad1.append('%s: yields on the abandon path' % label)
+    fn = m.find_method(cls, '_newFilename')
+    need(fn is not None, 'Filenames._newFilename not found')
+    import copy
+    me = A.Obj('filenames', {'files': copy.deepcopy(files), 'variables': dict(initial or {}), 'charsub': list(charsub) if charsub else None,
+                             'invalid': dict(invalid or {}), 'extension': extension}, cls=cls)
+    me.attrs['variables'].update(requests[0])
+    h = Consumer(m, cls, requests)
+    it = A.Interp(model=m, scope=fn, hooks=h, max_iter=130, exc_edges=False, inline=3, heap=True, precise_exc=True, max_states=60000, generators=True)
+    it.max_unroll = 140
+    outs = it.run_function(fn, env={'self': me, '__yields@0': []})
+    need(not it.imprecise, '_newFilename: %s' % it.imprecise[:2])
+    res = set()
+    for kind, s2, v in outs:
+        ys = s2.env.get('__yields@0')
+        res.add((kind if kind != 'raise' else 'raise %s' % v, tuple(y if isinstance(y, str) else 'TOP' for y in ys) if isinstance(ys, list) else 'TOP'))
+    return fn, res
+
+
+def generator_rules(chk, m, rule_id='R15.1'):
+    R = chk.rule(rule_id, 'Filenames._newFilename interpreted against scripted request sequences: the names issued are exactly those of '
+                 'the specification (static names first, then the alternatives in list order; an alternative with an unbound variable '
+                 'is skipped without consuming a number or leaving word limits behind; names already issued or reserved are never '
+                 'issued again - compared with their extension; forbidden characters replaced after the word limit)', 9)
+    scen = [
+        ('static name, ids, numbered fallback, duplicates',
+         ['index', ['${id}', 'sect${num.4}']], [{}, {'id': 'intro'}, {}, {'id': 'intro'}, {'id': 'a/b c'}, {'id': 'index'}, {}], {},
+         ('index.html', 'intro.html', 'sect0001.html', 'sect0002.html', 'a-b-c.html', 'sect0003.html', 'sect0004.html')),
+        ('reserved names are never issued', ['index', ['${id}', 'sect${num.4}']], [{}, {'id': 'logo'}, {'id': 'toc'}],
+         {'invalid': {'logo.html': None, 'sect0001.html': None}}, ('index.html', 'sect0002.html', 'toc.html')),
+        ('word limit, then forbidden characters', [['${title.2}', 'x${num.2}']], [{'title': 'Alpha Beta Gamma'}, {'title': 'Alpha Beta Delta'}, {'title': 'One'}], {},
+         ('Alpha-Beta.html', 'x01.html', 'One.html')),
+        ('an abandoned alternative leaves no word limit behind', [['${title.1}-${sub}', '${title}', 's${num.3}']], [{'title': 'Alpha Beta'}, {'title': 'Alpha Beta'}], {},
+         ('Alpha-Beta.html', 's001.html')),
+        ('an abandoned alternative consumes no number', [['n${num.2}-${sub}', 'p${id}', 'q${num.2}']], [{'id': 'x'}, {}, {'sub': 'y'}], {},
+         ('px.html', 'q01.html', 'n02-y.html')),
+        ('forbidden characters may be letters', [['${id}', 'f${num.2}']], [{'id': 'Große'}, {'id': 'a b'}], {'charsub': ('ß ', '-')},
+         ('Gro-e.html', 'a-b.html')),
+        ('an explicit extension is kept; several static names', ['index', 'toc.htm', ['${id}', 'f${num.2}']], [{}, {}, {'id': 'toc'}, {'id': 'toc.htm'}, {'id': 'index.html'}], {},
+         ('index.html', 'toc.htm', 'toc.html', 'f01.html', 'f02.html')),
+        ('a binding made for a static name does not leak into the next request',
+         ['index', 'toc', ['${id}', '${title.2}', 'sect${num}']], [{}, {'id': 'intro', 'title': 'My Intro Page'}, {}, {'title': 'Other Words Here'}, {}], {},
+         ('index.html', 'toc.html', 'sect1.html', 'Other-Words.html', 'sect2.html')),
+        ('only static names: the last one becomes the alternative', ['one', 'two'], [{}, {}], {}, ('one.html', 'two.html')),
+    ]
+    fn = None
+    for label, files, requests, kw, want in scen:
+        try:
+            fn, got = run_generator(m, files, requests, **kw)
+        except AnalysisError as e:
+            chk.undecided(R, 'names: %s' % label, str(e), MOD)
             continue
-        has_num = any(k == 'num' for k, f in keys)
-        if i_sub is None:
+        chk.paths += len(got)
+        chk.analysed(fn)
+        chk.decide(R, 'names: %s' % label, {repr(g) for g in got}, {repr(('raise GeneratorExit', want))},
+                   'template %s with the requests %s issues %s; expected %s' % (files, requests, sorted(got, key=repr), list(want)), chk.where(fn))
+    R4 = chk.rule(rule_id.rsplit('.', 1)[0] + '.4' if rule_id == 'R15.1' else rule_id + 'b',
+                  'bounded search: when no alternative can produce a new name the generator gives up with an error after a bounded number '
+                  'of passes instead of looping forever or ending silently', 2)
+    for label, files, requests, kw in (('every variable unbound', [['${id}']], [{}], {}),
+                                       ('the only candidate is already issued', ['index', ['${id}']], [{}, {'id': 'index'}], {})):
+        try:
+            fn, got = run_generator(m, files, requests, **kw)
+        except AnalysisError as e:
+            chk.undecided(R4, 'search: %s' % label, str(e), MOD)
             continue
-        if has_num and i_aug is None:
-            bad3.append('%s: a numbered candidate was formed but $num does not advance' % label)
-        if not has_num and i_aug is not None:
-            bad3.append('%s: $num advances for a candidate without $num' % label)
-        if i_aug is not None and i_aug < i_sub:
-            bad3.append('%s: $num advances before the candidate is formed' % label)
-        i_clear = idx(lambda e: e[0] == 'call' and e[1] == 'self.variables.clear')
-        i_upd = idx(lambda e: e[0] == 'call' and e[1] == 'self.variables.update')
-        if i_clear is None or i_upd is None or not (i_sub < i_clear < i_upd):
-            bad3.append('%s: namespace not reset (clear, update(initial)) after the name was formed' % label)
-        i_ext = idx(lambda e: e[0] == 'call' and e[1] == 'self.addExtension')
-        i_test = idx(lambda e: e[0] == 'assume' and e[1].replace(' ', '') in ('resultnotinself.invalid', 'resultinself.invalid'))
-        i_rec = idx(lambda e: e[0] == 'setitem' and e[1] == 'self.invalid')
-        if i_yield is not None:
-            n_yield += 1
-            y = tr[i_yield][1]
-            if not (isinstance(y, A.Sym) and y.label.startswith('EXT(')):
-                bad1.append('%s: yields %r, not the name with its extension' % (label, y))
-            if i_ext is None or i_test is None or not (i_ext < i_test):
-                bad1.append('%s: the "already issued" test is not made on the name with its extension' % label)
-            elif (tr[i_test][1].replace(' ', '') == 'resultnotinself.invalid') != tr[i_test][2]:
-                bad1.append('%s: yields although the name is already issued' % label)
-            if i_rec is None or not (i_rec < i_yield) or (i_ext is not None and i_rec < i_ext):
-                bad1.append('%s: the name is not recorded (with its extension) before it is yielded' % label)
-    chk.verdict(R1, 'phase %s: freshness guard' % name, not bad1 and n_yield >= 3, '; '.join(sorted(set(bad1))) or 'no yielding path found',
-                chk.where(fn, loop), '%d yielding paths' % n_yield)
-    chk.verdict(R3, 'phase %s: numbering and namespace reset' % name, not bad3 and n_abandon >= 1,
-                '; '.join(sorted(set(bad3))) or 'no abandon path found', chk.where(fn, loop), '%d abandon paths' % n_abandon)
-    # R15.5 / R15.2 statement order inside the phase body
-    body = loop.body
-    i_copy = next((i for i, st in enumerate(body) if isinstance(st, ast.Assign) and text(st.targets[0]) == 'currentns'), None)
-    ok_copy = i_copy is not None and text(body[i_copy].value) == 'self.variables.copy()'
-    fors = [(i, st) for i, st in enumerate(body) if isinstance(st, ast.For)]
-    i_lim = next((i for i, st in fors if 'keysre.findall' in text(st.iter) and re.search(r'\.split\(\)', text(st))), None)
-    i_rep = next((i for i, st in fors if 'currentns.items()' in text(st.iter) and '.replace(' in text(st)), None)
-    i_try = next((i for i, st in enumerate(body) if isinstance(st, ast.Try)), None)
-    ok = ok_copy and None not in (i_lim, i_rep, i_try) and i_copy < i_lim < i_rep < i_try
-    chk.verdict(R5, 'phase %s: copy, limit words, replace characters, substitute' % name, ok,
-                'phase %s: statement order (copy=%s, word limit=%s, character replacement=%s, substitution=%s): the word limit must '
-                'see the raw value (the blank is a forbidden character) and substitution the cleaned one' % (name, i_copy, i_lim, i_rep, i_try),
-                chk.where(fn, loop))
-    pops = [c for c in ast.walk(loop) if isinstance(c, ast.Call) and isinstance(c.func, ast.Attribute) and c.func.attr == 'pop'
-            and text(c.func.value) in ('value', 'words')]
-    okp = True
-    for c in pops:
-        from .c06 import guard_chain
-        from .c07 import parent_stmt
-        g = guard_chain(fn.node, parent_stmt(fn.node, c))
-        okp = okp and any(re.fullmatch(r'value|words|len\((value|words)\)( > 0)?', x) for x in g)
-    chk.verdict(R5, 'phase %s: word limit never pops from an empty list' % name, okp,
-                'the word-limit loop pops from a list that may be empty (blank or empty value): IndexError instead of a name', chk.where(fn, loop),
-                'slicing' if not pops else 'guarded pops')
+        want = ('raise ValueError', tuple(['index.html'] if len(requests) > 1 else []))
+        chk.decide(R4, 'search: %s' % label, {repr(g) for g in got}, {repr(want)},
+                   'template %s with the requests %s ends with %s; expected a ValueError after the bounded search' % (files, requests, sorted(got, key=repr)), chk.where(fn))
 
 
-def r154(chk, m, fn, phases):
-    R = chk.rule('R15.4', 'bounded search: the only unbounded loop counts its passes, gives up when no alternative produced a name '
-                 'and the count exceeds a constant, and the function then raises instead of ending silently', 3)
-    whiles = [n for n in M.walk_no_nested(fn.node) if isinstance(n, ast.While)]
-    inf = [w for w in whiles if isinstance(w.test, ast.Constant) and w.test.value]
-    need(len(inf) == 1, '_newFilename: expected exactly one unbounded loop')
-    w = inf[0]
-    incs = [st for st in w.body if isinstance(st, ast.AugAssign) and isinstance(st.op, ast.Add) and text(st.value) == '1']
-    chk.verdict(R, 'pass counter increases every iteration', len(incs) == 1, 'no unconditional pass counter in the search loop', chk.where(fn, w))
-    cname = text(incs[0].target) if incs else '?'
-    wl = phases[1][1]
-    ok = wl in w.body and wl.orelse and any(isinstance(x, ast.If) and re.fullmatch(r'%s > \d+' % cname, text(x.test)) and any(isinstance(y, ast.Break) for y in x.body) for x in wl.orelse)
-    chk.verdict(R, 'give-up exit when no alternative produced a name', bool(ok),
-                'the wildcard loop needs an else arm that leaves the search when the pass count exceeds a constant', chk.where(fn, wl))
-    last = fn.node.body[-1]
-    chk.verdict(R, 'the generator reports an error instead of ending', isinstance(last, ast.Raise) and 'ValueError' in text(last.exc),
-                'after the search loop the function must raise (last statement: %s)' % text(last)[:60], chk.where(fn, last))
-
-
-def r15x(chk, m):
-    R = chk.rule('R15.7', 'extension rule: added exactly when the name has none; $num is formatted with the requested width; '
-                 'alternatives are tried in list order', 3)
-    fn = m.func(MOD, 'Filenames.addExtension')
+def parse_rules(chk, m):
+    R = chk.rule('R15.7', 'parseFilenames and addExtension on concrete strings: "index [$id, sect$num(4)]" gives the static name and '
+                 'the alternatives in the order written, $name(n) becomes ${name.n}; an extension is added exactly when the name has none', 5)
+    cls = m.cls(MOD, 'Filenames')
+    fn = m.find_method(cls, 'addExtension')
+    need(fn is not None, 'Filenames.addExtension not found')
     chk.analysed(fn)
-    src = text(fn.node)
-    ok = 'os.path.splitext(filename)[-1]' in src and re.search(r'if not ext: return filename \+ self\.extension', src.replace('\n', ' ')) is not None \
-        and src.rstrip().endswith('return filename')
-    chk.verdict(R, 'addExtension', ok, 'addExtension must append self.extension iff splitext() finds none', chk.where(fn))
-    nf = m.func(MOD, 'Filenames._newFilename')
-    fm = [text(n.value) for n in M.walk_no_nested(nf.node) if isinstance(n, ast.Assign) and text(n.targets[0]) == "currentns['num']"]
-    chk.verdict(R, '$num formatting', len(fm) == 2 and all(f.replace(' ', '') == "'%%.%sd'%format%num" for f in fm),
-                "$num must be formatted as ('%%.%sd' % format) % num in both phases: " + str(fm), chk.where(nf))
-    its = [text(n.iter) for n in sorted(M.walk_no_nested(nf.node), key=lambda n: getattr(n, 'lineno', 0))
-           if isinstance(n, ast.For) and text(n.iter) in ('static', 'wildcard', 'reversed(wildcard)', 'sorted(wildcard)')]
-    chk.verdict(R, 'alternatives tried in list order', its == ['static', 'wildcard'], 'phases iterate over %s' % its, chk.where(nf))
+    for name, want in (('index', 'index.html'), ('toc.htm', 'toc.htm'), ('a.b/c', 'a.b/c.html'), ('', '.html')):
+        h = SelfHooks(m, cls)
+        h.keep = lambda ev: False
+        h.lookup = lambda interp, nm, state: None
+        it = A.Interp(model=m, scope=fn, hooks=h, max_iter=2, exc_edges=False, heap=True, precise_exc=True)
+        outs = it.run_function(fn, env={'self': A.Obj('f', {'extension': '.html'}, cls=cls), 'filename': name})
+        got = {(kind, v if isinstance(v, str) else 'TOP') for kind, s2, v in outs}
+        chk.decide(R, 'addExtension(%r)' % name, got, {('return', want)}, 'addExtension(%r) with extension .html gives %s; expected %r' % (name, sorted(got), want), chk.where(fn))
+    pf = m.find_method(cls, 'parseFilenames')
+    need(pf is not None, 'Filenames.parseFilenames not found')
+    chk.analysed(pf)
+    for spec, want in (('index [$id, sect$num(4)]', ['index', ['${id}', 'sect${num.4}']]), ('$title(2) toc', ['${title.2}', 'toc']),
+                       ('[${id}, f${num.3}]', [['${id}', 'f${num.3}']])):
+        h = SelfHooks(m, cls)
+        h.keep = lambda ev: False
+        h.lookup = lambda interp, nm, state: None
+        h.should_inline = A.private_only
+        it = A.Interp(model=m, scope=pf, hooks=h, max_iter=80, exc_edges=False, heap=True, precise_exc=True, inline=2)
+        it.max_unroll = 90
+        try:
+            outs = it.run_function(pf, env={'self': A.Obj('f', {}, cls=cls), 'spec': spec})
+        except AnalysisError as e:
+            chk.undecided(R, 'parseFilenames(%r)' % spec, str(e), chk.where(pf))
+            continue
+        got = {(kind, repr(v) if A._plain(v) else 'TOP') for kind, s2, v in outs}
+        chk.decide(R, 'parseFilenames(%r)' % spec, got, {('return', repr(want))},
+                   'parseFilenames(%r) gives %s; expected %r' % (spec, sorted(got), want), chk.where(pf))
+
+
+def check(chk):
+    m = chk.model
+    generator_rules(chk, m)
+    parse_rules(chk, m)
+    chk.decline('the exact sequence of names for every template and every sequence of bindings (the scenarios above are a finite '
+                'cover of the mechanisms named by the property)')
